@@ -61,6 +61,19 @@ add("C11",
     "archipelago's migration is covered under C12 (transition system), not here. Axiom-free.",
     "Rocq/Coq proof (counting argument over all shuffles) + tape-replay correspondence")
 
+add("C14",
+    "Coq theorems over an executable model of evolve_until_convergence and CheckpointController (minimum-generation loop, ordered "
+    "exit criteria, weighted generation speed, time-aware round length with int() truncation over exact rationals) against an "
+    "arbitrary oracle for the per-round duration, best fitness (NaN allowed) and evaluation count, for arbitrary prior state "
+    "(repeated calls): the call always returns; ngen = generations evolved >= minimum; the status names a criterion that holds at "
+    "return; success <-> best <= threshold; a round starts only below max generations and only after a check that found no "
+    "criterion met. Constants (0.98, [4,2,1], 0.25, status order, fall-through status) are regenerated from the source on every run; "
+    "the logic is tied by running the real method on a scripted optimizer with the same oracle and comparing inside Coq.",
+    "Trusted: Coq kernel; tr_consts.py; the harness (scripted subclass, replaced datetime). Modelled, not verified: the clock "
+    "advances only inside evolve calls; doubles are exact rationals (cases that flip under a 1e-7 perturbation of max_time are "
+    "excluded from the exact comparison and counted); a zero generation speed is an error outcome excluded by the statements. Axiom-free.",
+    "Rocq/Coq proof (loop invariants against an arbitrary oracle) + translator for constants + differential correspondence")
+
 NOT_APPLICABLE = []
 def main():
     props = [json.loads(l)["id"] for l in open(os.path.join(HERE, "properties.jsonl"))]
